@@ -369,6 +369,12 @@ pub fn run_module(case: &str, wasm: &[u8], stats: &mut Stats) {
 
 /// nesting depth 10^5 on a small thread stack (run in a subprocess by `main`)
 pub fn deep(depth: usize) {
+    deep_shape(depth, "blocks")
+}
+
+/// `shape`: "blocks" (block / loop nesting), "ifs" (nesting in the then-arm of if/else),
+/// "elses" (nesting in the else-arm)
+pub fn deep_shape(depth: usize, shape: &str) {
     use wasm_encoder::*;
     let mut m = wasm_encoder::Module::new();
     let mut t = TypeSection::new();
@@ -379,11 +385,35 @@ pub fn deep(depth: usize) {
     m.section(&fs);
     let mut code = CodeSection::new();
     let mut f = Function::new([]);
-    for k in 0..depth {
-        f.instruction(&if k % 3 == 0 { Instruction::Block(BlockType::Empty) } else if k % 3 == 1 { Instruction::Loop(BlockType::Empty) } else { Instruction::Block(BlockType::Empty) });
-    }
-    for _ in 0..depth {
-        f.instruction(&Instruction::End);
+    match shape {
+        "ifs" => {
+            for _ in 0..depth {
+                f.instruction(&Instruction::I32Const(1));
+                f.instruction(&Instruction::If(BlockType::Empty));
+            }
+            for _ in 0..depth {
+                f.instruction(&Instruction::Else);
+                f.instruction(&Instruction::End);
+            }
+        }
+        "elses" => {
+            for _ in 0..depth {
+                f.instruction(&Instruction::I32Const(0));
+                f.instruction(&Instruction::If(BlockType::Empty));
+                f.instruction(&Instruction::Else);
+            }
+            for _ in 0..depth {
+                f.instruction(&Instruction::End);
+            }
+        }
+        _ => {
+            for k in 0..depth {
+                f.instruction(&if k % 3 == 0 { Instruction::Block(BlockType::Empty) } else if k % 3 == 1 { Instruction::Loop(BlockType::Empty) } else { Instruction::Block(BlockType::Empty) });
+            }
+            for _ in 0..depth {
+                f.instruction(&Instruction::End);
+            }
+        }
     }
     f.instruction(&Instruction::End);
     code.function(&f);
@@ -435,12 +465,16 @@ pub fn main(seed: u64, tier: &str, only: Option<&str>) {
     // deep nesting, in a subprocess so that a stack overflow is observed, not suffered
     let exe = std::env::current_exe().unwrap();
     let depth = 100_000;
-    let o = std::process::Command::new(exe).args(["visit-deep", &depth.to_string()]).output();
-    let ok = match &o {
-        Ok(o) => o.status.success() && String::from_utf8_lossy(&o.stdout).contains(&format!("DEEP {} {} {}", depth, depth + 1, depth + 1)),
-        Err(_) => false,
-    };
-    out::oracle("deep", ok, "C16:deep-nesting", &format!("nesting depth {} on a 256 KiB stack: {}", depth, o.map(|o| format!("status {:?} stdout {}", o.status.code(), String::from_utf8_lossy(&o.stdout).trim().to_string())).unwrap_or("spawn failed".into())));
+    for shape in ["blocks", "ifs", "elses"] {
+        let o = std::process::Command::new(&exe).args(["visit-deep", &depth.to_string(), shape]).output();
+        // sequences reported: the entry plus one per block/loop, two per if (consequent and alternative)
+        let seqs = if shape == "blocks" { depth + 1 } else { 2 * depth + 1 };
+        let ok = match &o {
+            Ok(o) => o.status.success() && String::from_utf8_lossy(&o.stdout).contains(&format!("DEEP {} {} {}", depth, seqs, seqs)),
+            Err(_) => false,
+        };
+        out::oracle(&format!("deep-{}", shape), ok, &format!("C16:deep-nesting-{}", shape), &format!("nesting depth {} ({}) on a 256 KiB stack: {}", depth, shape, o.map(|o| format!("status {:?} stdout {}", o.status.code(), String::from_utf8_lossy(&o.stdout).trim().to_string())).unwrap_or("spawn failed".into())));
+    }
     out::stat("visit.functions", stats.functions);
     out::stat("visit.built_functions", stats.built);
     out::stat("visit.sequences", stats.sequences);
